@@ -422,6 +422,65 @@ NEEDED_RESULTS = ["poll:est", "poll:closed", "poll:opened", "poll:failed", "open
                   "reply:blocked", "inbound:blocked", "deliver:ok", "deliver:blocked", "dropproto:ok", "est:blocked", "slot:ok"]
 
 
+def conn_task_part(ctx):
+    """R3 on the real connection task (TcpConnection::start() on a negotiated loopback connection, scripted yamux remote):
+    an accepted open_substream id is answered exactly once while the connection stays up - for a remote that serves,
+    refuses (protocol unknown to it), never answers (open timeout) or aborts the negotiation of that one substream with
+    an I/O error in the middle of a multistream-select frame (seeded C08g).  Judged by the open-answer ledger of
+    ConnLifeNet.tla (events open_call / sub_out / sub_fail / answers_due)."""
+    import random
+    rnd = random.Random(ctx.seed + 11)
+    rounds = []
+    reps = 6 if ctx.quick() else 40
+    run = lambda ms: {"op": "run", "ms": ms}
+    for mode in ("serve", "refuse", "stall", "truncate", "truncate-then-serve"):
+        for q in (0, 1, 2):
+            for r in range(reps):
+                if mode == "serve":
+                    st = [{"op": "open", "q": q}, run(200)]
+                elif mode == "refuse":
+                    st = [{"op": "remote", "supported": [x for x in (0, 1, 2) if x != q]}, {"op": "open", "q": q}, run(200)]
+                elif mode == "stall":
+                    st = [{"op": "remote", "supported": [0, 1, 2], "stall": True}, {"op": "open", "q": q}, run(700)]
+                elif mode == "truncate":
+                    st = [{"op": "remote", "supported": [0, 1, 2], "truncate": True}, {"op": "open", "q": q}, {"op": "open", "q": (q + 1) % 3}, run(250)]
+                else:
+                    st = [{"op": "remote", "supported": [0, 1, 2], "truncate": True}, {"op": "open", "q": q}, run(150),
+                          {"op": "remote", "supported": [0, 1, 2]}, {"op": "open", "q": q}, run(200)]
+                st += [{"op": "due"}, {"op": "rclose"}, {"op": "finish"}]
+                rounds.append({"name": "open-answer-%s-q%d" % (mode, q), "exit": "open-answer-" + mode, "seed": rnd.randrange(1 << 30),
+                               "inbox": 16, "sub_timeout_ms": 300, "steps": st})
+    write_jsonl(ctx.path("ct_sc.jsonl"), rounds)
+    summ, _ = harness(ctx, "connunit", ["--scenarios", ctx.path("ct_sc.jsonl"), "--out", ctx.path("ct.ndjson"), "--par", 16, "--threads", 8], timeout=1200)
+    if summ["rounds"] < 0.9 * len(rounds):
+        raise ToolError("too many connection-harness rounds could not be set up: %s" % summ)
+    lines = read_lines(ctx.path("ct.ndjson"))
+    nseg, nev, rejects = validate_all(ctx, "ConnLifeNetTrace.tla", "ConnLifeNetTrace.cfg", lines, tag="ct")
+    kinds = {}
+    due_alive = 0
+    for ln in lines:
+        d = json.loads(ln)
+        if d["e"] in ("open_call", "sub_out", "sub_fail"):
+            kinds[d["e"]] = kinds.get(d["e"], 0) + 1
+        if d["e"] == "answers_due" and d["alive"]:
+            due_alive += 1
+    viol = []
+    for r in rejects:
+        seg, idx = r
+        if r.reason == "unconsumed":
+            raise ToolError("connection-task trace line could not be consumed: %s" % seg[idx - 1][:300])
+        if "open request" not in r.reason:
+            continue    # the lifecycle rules of these rounds belong to C07
+        head = json.loads(seg[0])
+        sig = "%s@%s" % (r.reason.replace(" ", "-"), head.get("exit", "?"))
+        viol.append({"sig": sig, "what": "%s (real TcpConnection::start(), round %s) at %s" % (r.reason, head.get("sc"), seg[idx - 1][:300]),
+                     "replay_obj": {"property": "C08", "level": "connection-task", "reason": r.reason, "signature": sig,
+                                    "segment": [json.loads(x) for x in seg]}})
+    if not viol and (due_alive < 0.8 * len(rounds) or not kinds.get("sub_out") or not kinds.get("sub_fail")):
+        raise ToolError("coverage: connection-task rounds did not reach their check point alive or never saw both answers: %s due_alive=%d" % (kinds, due_alive))
+    return {"rounds": len(rounds), "executions_validated": nseg, "events_validated": nev, "answers": kinds, "check_points_alive": due_alive}, viol
+
+
 def check(ctx):
     mc, gstats, summ, lines, nseg, nev, rejects, drift = pipeline(ctx)
     violations = []
@@ -432,6 +491,10 @@ def check(ctx):
                            "replay_obj": {"property": "C08", "reason": r.reason, "signature": sig,
                                           "segment": [json.loads(x) for x in seg[:idx]]}})
     cov = evidence(mc, gstats, summ, lines, nseg, nev, drift)
+    cargo_build(ctx, ["connunit"])
+    ccov, cviol = conn_task_part(ctx)
+    violations += cviol
+    cov["connection_task_open_answers"] = ccov
     # coverage is demanded of a run that found nothing; a run with rejected executions reports those
     # (a changed code path can make an outcome class disappear, e.g. a call that no longer blocks)
     missing = [k for k in NEEDED_RESULTS if not cov["results_observed"].get(k)]
